@@ -195,8 +195,13 @@ def cases(draw, tier='quick'):
         if nz:
             c = nz[-1]
             zero = [z for z in cats if z['offset'] == 0]
+            cnames = set(usedfull[t2['id'] + c['offset']]['name']
+                         for t2 in c['tracers']
+                         if t2['id'] + c['offset'] in usedfull)
             cand = [tr['id'] for z in zero for tr in z['tracers']
                     if tr['id'] + c['offset'] not in usedfull and
+                    tr['id'] in usedfull and
+                    usedfull[tr['id']]['name'] not in cnames and
                     all(t2['id'] != tr['id'] for t2 in c['tracers'])]
             if cand:
                 tid = draw(st.sampled_from(cand))
